@@ -163,6 +163,9 @@ class Parameter(NamedItem):
             else:
                 raise Exception("Unknown smoothing method")
 
+        if len(tvec) == 0:
+            return  # No times were requested (e.g. a scenario that starts after the simulation ends) so there is nothing to smooth
+
         for pop in pop_names:
             ts = self.ts[pop]
             v2 = ts.interpolate(tvec, method=method, **kwargs)
